@@ -39,9 +39,20 @@ def main():
         m = re.search(r"(cargo (test|run)[^`\n]*)", l)
         if m and not run:
             run = "CARGO_NET_OFFLINE=true " + m.group(1).strip()
+            rf = re.search(r'(RUSTFLAGS="[^"]*")', l)
+            if rf:
+                run = rf.group(1) + " " + run
     if not place or not run:
         print("cannot find placement/run command in demo header", place, run)
         sys.exit(2)
+    extra_mod = None
+    if "--mod" in sys.argv:
+        # unit-test demos: "--mod <file to patch>:<line to append>"
+        extra_mod = sys.argv[sys.argv.index("--mod") + 1].split(":", 1)
+    if "--place" in sys.argv:
+        place = sys.argv[sys.argv.index("--place") + 1]
+    if "--run" in sys.argv:
+        run = sys.argv[sys.argv.index("--run") + 1]
     place = place.lstrip("/")
     if place.startswith("tmp/seed/"):
         place = place.split("/", 3)[3]
@@ -61,17 +72,24 @@ def main():
     # 2. demo with change
     os.makedirs(os.path.dirname(f"{wt}/{place}"), exist_ok=True)
     shutil.copy(demo, f"{wt}/{place}")
+    def add_mod():
+        if extra_mod:
+            with open(f"{wt}/{extra_mod[0]}", "a") as fh:
+                fh.write("\n" + extra_mod[1] + "\n")
+    add_mod()
     rc1, out1 = sh(run + " 2>&1 | tail -15", wt)
     demo_fails = ("FAILED" in out1) or ("panicked" in out1) or ("error: test failed" in out1)
     meta["demo_with_change"] = "fails" if demo_fails else "PASSES (unexpected)"
     meta["ran"].append(run + "  (with change: expect failure)")
     # 3. revert, demo again
     sh("git checkout -- .", wt)
+    add_mod()
     rc2, out2 = sh(run + " 2>&1 | tail -15", wt)
     demo_passes = ("test result: ok" in out2) and ("FAILED" not in out2)
     meta["demo_without_change"] = "passes" if demo_passes else "FAILS (unexpected): " + out2[-300:]
     meta["ran"].append(run + "  (without change: expect pass)")
     os.remove(f"{wt}/{place}")
+    sh("git checkout -- .", wt)
     confirmed = (not failed) and demo_fails and demo_passes
     meta["confirmed"] = confirmed
     # against /repo with the checks
